@@ -150,7 +150,10 @@ def run_history(tests, setting):
             if explicit:
                 top.time(times_of(n, explicit)[0])
             top.startTest(t)
-            if test_tags:
+            if test_tags == "strip":
+                # the test drops every tag that was current when it started
+                top.tags(set(), {"run"})
+            elif test_tags:
                 top.tags({"t%d" % n}, {"run"} if n % 2 else set())
             if explicit:
                 top.time(times_of(n, explicit)[1])
@@ -177,7 +180,9 @@ def run_history(tests, setting):
             tags = set()
             if run_tags:
                 tags.add("run")
-            if test_tags:
+            if test_tags == "strip":
+                tags.discard("run")
+            elif test_tags:
                 tags.add("t%d" % n)
                 if n % 2:
                     tags.discard("run")
@@ -186,8 +191,36 @@ def run_history(tests, setting):
     except Exception as e:
         problems.append(("call-raised", "%s: %s (after %d tests)" % (type(e).__name__, str(e)[:150], len(reported))))
         return problems
-    problems.extend(check_stream(stream.log, reported, explicit))
-    problems.extend(check_roundtrip(ext.log, reported, explicit))
+    first_stream, first_ext = list(stream.log), list(ext.log)
+    if len(setting) > 4 and setting[4] == "rerun":
+        # the same converter objects used for a second run in which nobody supplies a time: every
+        # event of that run carries the clock's time, not the last time() of the run before
+        import datetime as _dt
+
+        before = _dt.datetime.now(_dt.timezone.utc)
+        try:
+            top.startTestRun()
+            t = make_test("placeholder", 99)
+            top.startTest(t)
+            top.addSuccess(t)
+            top.stopTest(t)
+            top.stopTestRun()
+        except Exception as e:
+            problems.append(("call-raised", "second run: %s: %s" % (type(e).__name__, str(e)[:150])))
+            return problems
+        after = _dt.datetime.now(_dt.timezone.utc)
+        evs2 = [e[1] for e in stream.log[len(first_stream) :] if e[0] == "status"]
+        if [e["test_status"] for e in evs2 if e["test_status"]] != ["inprogress", "success"]:
+            problems.append(("stream-final", "second run: stream %r" % (_brief(evs2),)))
+        for e in evs2:
+            if e["timestamp"] is None or not (before <= e["timestamp"] <= after):
+                problems.append(("stream-time", "second run without time(): event timestamp %r, the run took place between %r and %r" % (e["timestamp"], before, after)))
+                break
+        times2 = [e[1] for e in ext.log[len(first_ext) :] if e[0] == "time"]
+        if any(x is None or not (before <= x <= after) for x in times2):
+            problems.append(("roundtrip-times", "second run without time(): replayed times %r, the run took place between %r and %r" % (times2, before, after)))
+    problems.extend(check_stream(first_stream, reported, explicit))
+    problems.extend(check_roundtrip(first_ext, reported, explicit))
     return problems
 
 
@@ -338,6 +371,9 @@ def work_items(tier):
         items.append(([("case",) + a, ("placeholder",) + b], (True, True, True, 0, "stopped")))
         items.append(([("case",) + a, ("placeholder",) + b], (False, True, "back", 0)))
         items.append(([("case",) + a, ("placeholder",) + b], (True, True, True, 0, "sameid")))
+        items.append(([("case",) + a, ("placeholder",) + b], (True, "strip", True, 0)))
+    for a in variants_small(3):
+        items.append(([("case",) + a], (True, True, True, 0, "rerun")))
     if tier != "quick":
         tiny = variants_small(2)[::2]
         for a, b, c in itertools.product(tiny, repeat=3):
